@@ -24,7 +24,8 @@ import (
 //	rx<TAB>match<TAB>flags<TAB>pathex<TAB>subjhex,subjhex,…   value.CompileRegex + Regex.MatchesString
 //	     -> `ok 0110…` | `cerr transpile|go`
 //	rx<TAB>comp<TAB>concat<TAB>f1<TAB>p1hex<TAB>f2<TAB>p2hex<TAB>subjects   Regex#+ then matches
-//	rx<TAB>comp<TAB>repeat<TAB>f1<TAB>p1hex<TAB>n<TAB>subjects             Regex#* then matches
+//	rx<TAB>comp<TAB>repeat<TAB>f1<TAB>p1hex<TAB>n<TAB>-<TAB>subjects       Regex#* then matches
+//	rx<TAB>comp<TAB>interp<TAB>f1<TAB>p1hex<TAB>f2<TAB>-<TAB>subjects      ToStringWithFlags() of r1 compiled under flags f2
 func init() { hx.RegisterExec("rx", execRx) }
 
 func hx0(s string) string {
@@ -307,6 +308,18 @@ func execRx1(f []string) string {
 				return "cerr right"
 			}
 			res, ev = r1.ConcatVal(value.Ref(r2))
+		case "interp":
+			// what the VM does when a regex is interpolated into a regex literal: its ToStringWithFlags() text
+			// becomes part of the new source, compiled with the outer literal's flags (f[4])
+			fl2, ok := parseFlags(f[4])
+			if !ok {
+				return "bad-op"
+			}
+			re, cerr := value.CompileRegex(string(r1.ToStringWithFlags()), fl2)
+			if cerr != nil {
+				return "cerr composed"
+			}
+			return matchAll(re, f[6]) + " src=" + hx0(re.Source) + " fl=" + strconv.Itoa(int(re.Flags.Byte()))
 		case "repeat":
 			n, err := strconv.Atoi(f[4])
 			if err != nil {
